@@ -41,6 +41,9 @@ func (c *Ctx) GCWith(fn *ssa.Function, opts BuildOpts) *GCNF {
 	return g
 }
 
+// GCTail: the normal form of fn with a parameter loop read as tail recursion (tailRecForm).
+func (c *Ctx) GCTail(fn *ssa.Function) *GCNF { return tailRecForm(c.p, c.GC(fn)) }
+
 func gcStrings(gcs []*GC) []string {
 	out := make([]string, len(gcs))
 	for i, g := range gcs {
